@@ -151,25 +151,45 @@ def _serve(rfd, wfd, base_tmp, reqpath, respath):
         _token(wfd)
 
 
+def _import_all():
+    import importlib
+    import pkgutil
+    import propka
+    for m in pkgutil.iter_modules(propka.__path__):
+        if not m.name.startswith('_'):
+            try:
+                importlib.import_module('propka.' + m.name)
+            except Exception:
+                pass
+
+
+CANONICAL_HASHSEED = '0'
+
+
 class RefServer:
+    """The reference interpreter: a separate python process started with the
+    canonical PYTHONHASHSEED (so that dependence on the hash seed shows as a
+    difference from the worker, whose seed varies), which imports propka,
+    never runs it, and forks one child per request."""
+
     def __init__(self, base_tmp):
+        import subprocess
         self.cache = {}
         self.computed = 0
         self.reqpath = os.path.join(base_tmp, 'ref-req.bin')
         self.respath = os.path.join(base_tmp, 'ref-res.bin')
         req_r, req_w = os.pipe()
         res_r, res_w = os.pipe()
-        pid = os.fork()
-        if pid == 0:
-            os.close(req_w)
-            os.close(res_r)
-            try:
-                _serve(req_r, res_w, base_tmp, self.reqpath, self.respath)
-            finally:
-                os._exit(0)
+        env = dict(os.environ)
+        env['PYTHONHASHSEED'] = CANONICAL_HASHSEED
+        self.proc = subprocess.Popen(
+            [sys.executable, '-m', 'sim.refserver', str(req_r), str(res_w), base_tmp,
+             self.reqpath, self.respath],
+            pass_fds=(req_r, res_w), env=env, stdin=subprocess.DEVNULL,
+            stdout=subprocess.DEVNULL, stderr=subprocess.DEVNULL, cwd='/')
         os.close(req_r)
         os.close(res_w)
-        self.pid, self.w, self.r = pid, req_w, res_r
+        self.pid, self.w, self.r = self.proc.pid, req_w, res_r
 
     def request(self, key, text, stem, options, param_text=None, suffix='.pdb'):
         if key in self.cache:
@@ -181,7 +201,7 @@ class RefServer:
         _wait_token(self.r)
         try:
             status, res = pickle.loads(read_blob(self.respath))
-        except OSError:
+        except (OSError, EOFError):
             status, res = 'harness-error', 'reference child died'
 
         if status != 'ok':
@@ -195,6 +215,24 @@ class RefServer:
             os.write(self.w, b'q')
             os.close(self.w)
             os.close(self.r)
-            os.waitpid(self.pid, 0)
-        except OSError:
-            pass
+            self.proc.wait(timeout=30)
+        except Exception:
+            try:
+                self.proc.kill()
+            except Exception:
+                pass
+
+
+def _main():
+    rfd, wfd = int(sys.argv[1]), int(sys.argv[2])
+    base_tmp, reqpath, respath = sys.argv[3:6]
+    try:
+        _import_all()
+        import propka.run  # noqa
+    except BaseException:
+        os._exit(3)
+    _serve(rfd, wfd, base_tmp, reqpath, respath)
+
+
+if __name__ == '__main__':
+    _main()
